@@ -62,6 +62,13 @@ PROBLEMS = [
     ('chuge', 'FormulaGrader', 'x*1e160*(1+i)', ['x'], lambda x, y: x * 1e160 * (1 + 1j), 'complex', None, 1.0),
     ('numhuge', 'NumericalGrader', '2.5e200', [], lambda x, y: 2.5e200, 'scalar', None, 1.0),
     ('numtiny', 'NumericalGrader', '4e-200', [], lambda x, y: 4e-200, 'scalar', None, 1.0),
+    # ... and the same for arrays, whose Frobenius norm squares every entry
+    ('mathuge', 'MatrixGrader', 'x*1e160*[[1,2],[3,4]]', ['x'],
+     lambda x, y: ('arr', [x * 1e160, 2 * x * 1e160, 3 * x * 1e160, 4 * x * 1e160]), 'array', '[[1,1],[1,1]]', 2.0),
+    ('vectiny', 'MatrixGrader', 'x*1e-170*[1,2]', ['x'],
+     lambda x, y: ('arr', [x * 1e-170, 2 * x * 1e-170]), 'array', '[1,1]', math.sqrt(2.0)),
+    ('cvechuge', 'MatrixGrader', 'x*1e170*[1+i, 2, i]', ['x'],
+     lambda x, y: ('arr', [x * 1e170 * (1 + 1j), 2 * x * 1e170, x * 1e170 * 1j]), 'array', '[1,i,1+i]', 2.0),
     ('num', 'NumericalGrader', '3.5*2', [], lambda x, y: 7.0, 'scalar', None, 1.0),
     ('numc', 'NumericalGrader', '2+3*i', [], lambda x, y: 2 + 3j, 'complex', None, 1.0),
 ]
@@ -71,7 +78,8 @@ TOLS = [0, 0.001, 0.01, 0.5, '0%', '0.01%', '1%', '5%', '10%', '0.5%', '0.00002%
 
 def norm_of(val):
     if isinstance(val, tuple):
-        return math.sqrt(sum(abs(v) ** 2 for v in val[1]))
+        # (hypot scales internally: squaring the entries would leave the float range)
+        return math.hypot(*[abs(v) for v in val[1]])
     return abs(val)
 
 
@@ -231,7 +239,7 @@ class Run(object):
         if ev['form'] == 'inf':
             cfg['allow_inf'] = True
         if self.p['two_alts']:
-            far = {'expect': '(' + self.ans + ')*1000+1000' if self.kind != 'array' else '(' + self.ans + ')+1000*' + self.E,
+            far = {'expect': '(' + self.ans + ')*1000+1000' if self.kind != 'array' else '(' + self.ans + ')*1000+1000*' + self.E,
                    'grade_decimal': 0.9}
             cfg['answers'] = (ans, far)
         else:
